@@ -495,13 +495,6 @@ func (h *c11Run) listAndJudge(chain []string) []diskEnt {
 			continue
 		}
 		dsz, _ := getF(&dres[0], hotline.FieldFileSize)
-		if string(ity) == "fldr" {
-			// A regular file whose .info_ side file says "fldr": left behind by a FOLDER rename (os.Rename does not
-			// carry the folder's information fork) and inherited by a file that later got the folder's old name.
-			// get-info then omits the size.  Mirrored by the model, reported to the lead, not judged here.
-			c.Dist("file-with-folder-info-fork")
-			continue
-		}
 		want := be32(len(data))
 		if !hasSz || !bytes.Equal(isz, want) || !bytes.Equal(dsz, want) || le.Size != uint32(len(data)) {
 			c.Note("disk_name", e.name)
@@ -707,7 +700,38 @@ func c11History(c *Case) {
 					judge = false
 				}
 			}
+			// folder rename: the folder's information fork (comment) must travel with it (fix: 500a006)
+			judgeDir := unique && ent.dir && !q.HasComment && newDisk != "/" && newDisk != ent.name
+			var dirInfo []byte
+			hadDirInfo := false
+			if judgeDir {
+				if _, err := os.Lstat(filepath.Join(dir, newDisk)); err == nil {
+					judgeDir = false
+				}
+				if _, err := os.Lstat(filepath.Join(dir, ".info_"+newDisk)); err == nil {
+					judgeDir = false
+				}
+				dirInfo, hadDirInfo = readOrNil(filepath.Join(dir, ".info_"+ent.name))
+			}
 			reply, _ := h.step(q)
+			if judgeDir && reply == "ok" {
+				if li, err := os.Lstat(filepath.Join(dir, newDisk)); err == nil && li.IsDir() {
+					if _, err := os.Lstat(filepath.Join(dir, ent.name)); err != nil { // the folder did move
+						now, has := readOrNil(filepath.Join(dir, ".info_"+newDisk))
+						_, left := readOrNil(filepath.Join(dir, ".info_"+ent.name))
+						if left || has != hadDirInfo || !bytes.Equal(now, dirInfo) {
+							c.Note("folder", filepath.Join(dir, ent.name))
+							c.Note("new_name", newDisk)
+							c.Note("had_info_fork", hadDirInfo)
+							c.Note("info_fork_left_under_old_name", left)
+							c.Note("info_fork_under_new_name", has)
+							c.Note("history", h.trace)
+							c.Violation("folder-rename-leaves-info-fork", "a folder rename acknowledged as done did not take the folder's information fork (comment) along")
+						}
+						c.Nontrivial(fmt.Sprintf("folder-rename|%s|%s|%v", ent.name, newDisk, hadDirInfo))
+					}
+				}
+			}
 			if judge && reply == "ok" && !q.HasComment {
 				h.judgeCarried("rename", before, dir, ent.name, dir, newDisk)
 				c.Nontrivial(fmt.Sprintf("rename|%s|%s|%v%v%v", ent.name, newDisk, before.hi, before.hr, before.hf))
@@ -841,6 +865,17 @@ func init() {
 			if ireply, _ := h.step(fileReq{Kind: "info", Name: []byte("notes")}); !strings.Contains(ireply, hx([]byte("keep me"))) {
 				c.Note("info_reply", ireply)
 				c.Violation("refused-move-changed-tree", "after a refused move / rename the file lost its comment")
+			}
+			// 500a006: a folder's comment travels with a rename; a file later given the old name starts clean
+			os.MkdirAll(filepath.Join(ts.Root, "proj"), 0755)
+			h.step(fileReq{Kind: "setinfo", Name: []byte("proj"), Comment: []byte("folder note"), HasComment: true})
+			h.step(fileReq{Kind: "setinfo", Name: []byte("proj"), NewName: []byte("proj2"), HasNewName: true})
+			if _, err := os.Lstat(filepath.Join(ts.Root, ".info_proj")); err == nil {
+				c.Violation("folder-rename-leaves-info-fork", "a folder rename left the folder's information fork under the old name")
+			}
+			if ireply, _ := h.step(fileReq{Kind: "info", Name: []byte("proj2")}); !strings.Contains(ireply, hx([]byte("folder note"))) {
+				c.Note("info_reply", ireply)
+				c.Violation("folder-rename-leaves-info-fork", "after a folder rename get-info no longer returns the folder's comment")
 			}
 			h.listAndJudge(nil)
 			h.step(fileReq{Kind: "info", Name: []byte("a.incomplete.txt")})
